@@ -139,9 +139,9 @@ def rule_canonical(program, ctx, prop=P, rid="C04.canonical"):
 # --------------------------------------------------------------------------
 
 
-def rule_serializer(program, ctx, proven):
-    rid = ctx.rule(
-        "C04.serializer",
+def rule_serializer(program, ctx, proven, prop=P, rid="C04.serializer"):
+    ctx.rule(
+        rid,
         "util.event_as_json: the f-string frame template is read as a JSON skeleton; each hole is classified by position (between quotes / "
         "value position) and by the class of its expression; string position needs encode_basestring/json_dumps or an admission-proven hex "
         "field, value position needs a JSON encoder or an admission-proven int; str() of an arbitrary tag item is not an encoder",
@@ -170,14 +170,14 @@ def rule_serializer(program, ctx, proven):
         if h.adequate:
             ctx.ok(rid, h.stmt, f"hole `{src[:60]}` [{h.position}] class {h.cls}: {h.why}")
         else:
-            ctx.bad(finding_at(P, rid, h.stmt, f"`{src[:80]}` is pasted into the EVENT frame {'between JSON quotes' if h.position == 'quoted' else 'in value position'} "
+            ctx.bad(finding_at(prop, rid, h.stmt, f"`{src[:80]}` is pasted into the EVENT frame {'between JSON quotes' if h.position == 'quoted' else 'in value position'} "
                                f"without a JSON encoder ({h.why}): quotes, backslashes, control characters or non-string values make the frame invalid JSON",
                                text=src[:60]))
     # every field of the event is served, under its own key
     text = "".join(str(p.value) for j in walk_no_nested(fn) if isinstance(j, ast.JoinedStr) for p in j.values if isinstance(p, ast.Constant))
     for k in ("id", "created_at", "pubkey", "kind", "sig", "content", "tags"):
         if f'"{k}":' not in text:
-            ctx.bad(finding_func(P, rid, fn, f"the EVENT frame template has no \"{k}\" member", text=f"def event_as_json(...) :: {k}"))
+            ctx.bad(finding_func(prop, rid, fn, f"the EVENT frame template has no \"{k}\" member", text=f"def event_as_json(...) :: {k}"))
     # key -> field pairing
     for j in walk_no_nested(fn):
         if isinstance(j, ast.JoinedStr):
@@ -195,7 +195,7 @@ def rule_serializer(program, ctx, proven):
                         if names == {key}:
                             ctx.ok(rid, j, f"member \"{key}\" <- {ev}.{key}", nontrivial=False)
                         else:
-                            ctx.bad(finding_at(P, rid, j, f"member \"{key}\" of the EVENT frame is filled from {sorted(names) or ast.unparse(p.value)}, not from {ev}.{key}", text=key))
+                            ctx.bad(finding_at(prop, rid, j, f"member \"{key}\" of the EVENT frame is filled from {sorted(names) or ast.unparse(p.value)}, not from {ev}.{key}", text=key))
 
 
 def rule_frames(program, ctx):
@@ -507,7 +507,47 @@ def rule_subid(program, ctx):
         ctx.bad(finding_func(P, rid, init, "BaseSubscription.__init__ transforms the subscription id", text="def __init__(...) :: sub_id"))
 
 
+def rule_encoder(program, ctx, prop=P, rid="C04.encoder"):
+    ctx.rule(
+        rid,
+        "the shared JSON encoder (util.json_dumps: hand serializer fallback, HTTP bodies, and the SQLAlchemy json_serializer of the tags column) is constructed with "
+        "presentation options only (ensure_ascii, separators, indent): options that change the encoded *value* (sort_keys re-orders the members of an object inside a tag, "
+        "default/skipkeys/number modes substitute values) make the served event differ from the accepted one - its id no longer matches",
+        floor=1,
+    )
+    m = program.module("nostr_relay.util")
+    allowed = {"ensure_ascii", "separators", "indent", "write_mode", "check_circular", "allow_nan"}
+    n = 0
+    for c in ast.walk(m.tree):
+        if isinstance(c, ast.Call) and call_name(c).split(".")[-1] in ("Encoder", "JSONEncoder"):
+            n += 1
+            extra = [k.arg or "**" for k in c.keywords if (k.arg or "**") not in allowed and not (isinstance(k.value, ast.Constant) and k.value.value in (False, None))]
+            if extra or c.args:
+                ctx.bad(finding_at(prop, rid, c, f"the JSON encoder is built with {extra or 'positional options'}: the encoded value of a tag item / stored tags column differs from what was accepted"))
+            else:
+                ctx.ok(rid, c, f"{call_name(c)}({', '.join(k.arg for k in c.keywords)})")
+        if isinstance(c, ast.Call) and call_name(c).split(".")[-1] in ("dumps",) and "json" in call_name(c) and any(k.arg in ("sort_keys", "default", "skipkeys") for k in c.keywords) \
+                and "json_dumps" in {t.id for a in ancestors(c) if isinstance(a, (ast.Assign, ast.FunctionDef)) for t in (a.targets if isinstance(a, ast.Assign) else []) if isinstance(t, ast.Name)} | ({a.name for a in ancestors(c) if isinstance(a, ast.FunctionDef)}):
+            ctx.bad(finding_at(prop, rid, c, "json_dumps is implemented with value-changing options"))
+    if not n:
+        raise AnalysisError("util.json_dumps encoders not found")
+    # the tags column is serialised by the same encoder
+    init = program.func("nostr_relay.storage.db:DBStorage.setup") if program.func_opt("nostr_relay.storage.db:DBStorage.setup") else None
+    for q in ("nostr_relay.storage.db:DBStorage.setup", "nostr_relay.storage.db:DBStorage.__init__"):
+        f = program.func_opt(q)
+        if f is None:
+            continue
+        for k in [k for c in ast.walk(f) if isinstance(c, ast.Call) for k in c.keywords if k.arg == "json_serializer"]:
+            if dotted(k.value) == "json_dumps":
+                ctx.ok(rid, k.value, "engine json_serializer = util.json_dumps")
+            else:
+                ctx.bad(finding_at(prop, rid, k.value, f"the tags column is serialised by `{ast.unparse(k.value)[:60]}`, not by the audited encoder"))
+
+
 def run(program, ctx):
+    from ..lib import rule_awaited
+
+    rule_awaited(program, ctx, P, ANCHORS)
     rule_subid(program, ctx)
     proven = rule_canonical(program, ctx)
     rule_serializer(program, ctx, proven)
@@ -515,6 +555,7 @@ def run(program, ctx):
     rule_sqlcodec(program, ctx)
     rule_kvcodec(program, ctx)
     rule_http(program, ctx)
+    rule_encoder(program, ctx)
     ctx.not_decided += [
         "round-trip equality through SQLite/PostgreSQL JSON and TEXT columns and through msgpack for all Unicode/number values",
         "byte-level equality of the hand serializer's escaping with the client's original encoding (only JSON validity and value equality are targeted)",
